@@ -254,7 +254,17 @@ def run(ctx: Ctx) -> None:
 
     with Taps(ctx) as taps:
         install(taps, ctx)
-        run_manager_scenarios(ctx, "scenario", 120 if ctx.quick else 6000)
+        def recheck(run, scene):
+            # a frame's accounting still holds once later frames (with their own critical filters) have been evaluated:
+            # the stored results of every earlier frame are exactly its TP and FP results (by estimate identity)
+            for k, fr in enumerate(run.manager.frame_results):
+                pf = fr.pass_fail_result
+                stored = sorted(id(r.estimated_object) for r in fr.object_results)
+                counted = sorted(id(r.estimated_object) for r in list(pf.tp_object_results) + list(pf.fp_object_results))
+                ctx.count("C03.stored_frames_rechecked")
+                ctx.check(stored == counted, "C03/stored_frame_results_no_longer_tp_plus_fp_after_later_frames", dict(frame=fr.frame_name, position=k, n_frames=len(run.manager.frame_results), stored=len(stored), tp=len(pf.tp_object_results), fp=len(pf.fp_object_results), task=run.scn.task), "evaluate_frame")
+
+        run_manager_scenarios(ctx, "scenario", 120 if ctx.quick else 6000, after=recheck)
         run_direct_frames(ctx, "direct_frames", 300 if ctx.quick else 20000)
         run_direct_frames_2d(ctx, "direct_frames_2d", 150 if ctx.quick else 8000)
         ctx.notes["taps"] = taps.installed
